@@ -44,6 +44,13 @@ def books(ctx):
             v = None
         if v is not None:
             out.append((f'{label}, a pump tab retitled {style!r}', v))
+    for label, wb in list(out)[:ctx.n(3, 12)]:
+        try:
+            v = X.upper_titles(wb)
+        except Exception:   # noqa
+            v = None
+        if v is not None:
+            out.append((f'{label}, pump / driver tab titles in upper case', v))
     return out
 
 
